@@ -258,8 +258,9 @@ func runC04(run *Run, seed int64, sc c04Scn, rng *rand.Rand) (out []*c01Result, 
 	start := time.Now()
 	metaGen := 0
 	polls := 0
-	var leaver *SimNode
-	var allLeftAt time.Time
+	var leavers []*SimNode
+	allLeftAt := map[*SimNode]time.Time{}
+	nextID := sc.N
 	for time.Now().Before(end) {
 		time.Sleep(250 * time.Millisecond)
 		polls++
@@ -283,15 +284,15 @@ func runC04(run *Run, seed int64, sc c04Scn, rng *rand.Rand) (out []*c01Result, 
 			}
 			a := live[rng.Intn(len(live))]
 			b := live[rng.Intn(len(live))]
-			switch op := rng.Intn(6); op {
+			switch op := rng.Intn(7); op {
 			case 0:
 				metaGen++
 				a.Del.SetMeta([]byte(fmt.Sprintf("meta-%s-%d", a.Name, metaGen)))
 				go func() { _ = a.ML().UpdateNode(5 * time.Second) }()
 				run.Cell("op", "update")
 			case 1:
-				if leaver == nil && len(live) > 2 {
-					leaver = a
+				if len(leavers) < 3 && len(live) > 2 {
+					leavers = append(leavers, a)
 					left[a.Name] = true
 					go func() {
 						if err := a.ML().Leave(20 * time.Second); err != nil {
@@ -302,6 +303,9 @@ func runC04(run *Run, seed int64, sc c04Scn, rng *rand.Rand) (out []*c01Result, 
 						a.mu.Unlock()
 					}()
 					run.Cell("op", "leave")
+					if len(leavers) > 1 {
+						run.Cell("op", "leave-again")
+					}
 				}
 			case 2:
 				a.Del.Queue([]byte(fmt.Sprintf("bcast-%d", i)))
@@ -325,10 +329,29 @@ func runC04(run *Run, seed int64, sc c04Scn, rng *rand.Rand) (out []*c01Result, 
 					go func() { _, _ = a.ML().Join([]string{b.EP.Addr}) }()
 					run.Cell("op", "rejoin")
 				}
+			case 6:
+				// a brand-new member arrives while everything else goes on
+				if nextID < sc.N+3 {
+					nd, err := mk(nextID)
+					nextID++
+					if err != nil {
+						fail("harness/create", "%v", err)
+						return
+					}
+					go func() {
+						if _, err := nd.ML().Join([]string{a.EP.Addr}); err != nil {
+							c.sink.add(nd.Name, "C04/harness/join", "late join failed: %v", err)
+						}
+					}()
+					run.Cell("op", "late-join")
+				}
 			}
 		}
 		// a leaver keeps answering until every peer has recorded the departure
-		if leaver != nil && !leaver.Stopped {
+		for _, leaver := range leavers {
+			if leaver.Stopped {
+				continue
+			}
 			leaver.mu.Lock()
 			all := leaver.Departed
 			leaver.mu.Unlock()
@@ -342,10 +365,14 @@ func runC04(run *Run, seed int64, sc c04Scn, rng *rand.Rand) (out []*c01Result, 
 			}
 			// a peer may have picked the leaver for a probe in the very instant it
 			// learned of the departure: keep answering for two more seconds
-			if all && allLeftAt.IsZero() {
-				allLeftAt = time.Now()
+			if !all {
+				delete(allLeftAt, leaver)
+				continue
 			}
-			if all && time.Since(allLeftAt) >= 2*time.Second {
+			if _, ok := allLeftAt[leaver]; !ok {
+				allLeftAt[leaver] = time.Now()
+			}
+			if time.Since(allLeftAt[leaver]) >= 2*time.Second {
 				c.Stop(leaver)
 			}
 		}
@@ -370,7 +397,7 @@ func synctestWait() { Settle(0) }
 
 func TestC04(t *testing.T) {
 	run := NewRun(t, "C04", "exploration",
-		"Real clusters of 2-16 nodes in virtual time with NO faults: every packet delayed by a PRNG value strictly below ProbeTimeout/2 (zero / uniform / bimodal-near-bound profiles, arbitrary reordering), stream writes likewise; joins in PRNG order (staggered or all at once), interleaved UpdateNode, one graceful Leave (the leaver keeps answering until every peer recorded it), user broadcasts, best-effort and reliable sends, extra Joins. Absence monitors: (wire) any suspect message, dead message with From != Node, indirect-ping request, nack or TCP fallback ping; (push/pull) any entry in state suspect/dead; (dump, every 250 ms) any suspect/dead record or suspicion timer, left without Leave; (log) failure/refutation lines; NotifyLeave for a non-leaver; GetHealthScore != 0. The C07 event monitor and C02 invariant run on every node. Cell = (n bucket, latency profile, config, operation).")
+		"Real clusters of 2-16 nodes in virtual time with NO faults: every packet delayed by a PRNG value strictly below ProbeTimeout/2 (zero / uniform / bimodal-near-bound profiles, arbitrary reordering), stream writes likewise; joins in PRNG order (staggered or all at once), interleaved UpdateNode, up to three graceful Leaves (each leaver keeps answering until every peer recorded it), up to three brand-new members joining mid-run, user broadcasts, best-effort and reliable sends, extra Joins. Absence monitors: (wire) any suspect message, dead message with From != Node, indirect-ping request, nack or TCP fallback ping; (push/pull) any entry in state suspect/dead; (dump, every 250 ms) any suspect/dead record or suspicion timer, left without Leave; (log) failure/refutation lines; NotifyLeave for a non-leaver; GetHealthScore != 0. The C07 event monitor and C02 invariant run on every node. Cell = (n bucket, latency profile, config, operation).")
 	defer run.Finish()
 	run.Assume("latency bound is strict (< ProbeTimeout/2 - 1 ms) so no ack/timeout tie can occur", "stream writes use a quarter of the packet latency per write (a push/pull is several writes)")
 	n := run.Pick(96, 9600)
@@ -427,7 +454,7 @@ func TestC04(t *testing.T) {
 		}
 	}
 	if !run.Replaying() {
-		run.Require("op|update", "op|leave", "op|broadcast", "op|best-effort", "op|reliable")
+		run.Require("op|update", "op|leave", "op|leave-again", "op|late-join", "op|broadcast", "op|best-effort", "op|reliable")
 	}
 	run.Complete()
 	if run.Violations() > 0 {
